@@ -218,13 +218,14 @@ class Interp:
                     if nm == 'std::prev':
                         d = -d
                     p = v[1]
-                    if p == 'E' and self.sc.ke < W:
+                    plain = cx2.ins is None                # no in-place insertion pending: offsets are those of the set on entry
+                    if p == 'E' and self.sc.ke < W and plain:
                         p = self.sc.ke                     # the end is inside the known window: an exact offset
-                    elif p == 'B' and self.sc.kb < W:
+                    elif p == 'B' and self.sc.kb < W and plain:
                         p = -self.sc.kb
                     if isinstance(p, int):
                         q = p + d
-                        if q == self.sc.ke and self.sc.ke < W:
+                        if q == self.sc.ke and self.sc.ke < W and plain:
                             out.append((('it', 'E'), cx2))
                         else:
                             out.append((('it', q), cx2))
